@@ -389,14 +389,19 @@ fn diverging_clones(rep: &mut Report) {
                                     }
                                     Encode(i) => {
                                         // (an UNKNOWN-ATTRIBUTES / PASSWORD-ALGORITHMS without entries is legal on the wire)
-                                        let lm = menu::lmsg(1, 3, [step as u8; 12], vec![L::ErrorCode(420, "".into()), logical(family, &lists[i])]);
-                                        if lists[i].is_empty() && family == "PasswordAlgorithms" {
-                                            continue;
-                                        }
                                         let attr: StunAttribute = match &objs[i] {
                                             Obj::Pa(p) => p.clone().into(),
                                             Obj::Ua(u) => u.clone().into(),
                                         };
+                                        // the list this value holds, by its public accessors (what `add` does with an entry
+                                        // that is already there is not C02's question); the model list is only used to skip
+                                        // a PASSWORD-ALGORITHMS without entries
+                                        let held = from_subject(&attr);
+                                        let _ = &logical;
+                                        let lm = menu::lmsg(1, 3, [step as u8; 12], vec![L::ErrorCode(420, "".into()), held]);
+                                        if lists[i].is_empty() && family == "PasswordAlgorithms" {
+                                            continue;
+                                        }
                                         // encode the value itself (not only a clone of it): the message takes the clone, the
                                         // value is encoded through a second message built from a fresh clone afterwards
                                         let mut enc_ok = true;
@@ -642,7 +647,6 @@ pub fn run(ctx: &RunCtx) -> i32 {
         }
         shared.merge(r);
     }
-    let _ = from_subject;
 
     let mut rep = shared.into_inner();
     rep.outcome("bytes-equal");
